@@ -332,7 +332,7 @@ impl Check for C06 {
     fn meta(&self, tier: Tier) -> Meta {
         Meta {
             bound: format!(
-                "all histories of depth <={} over the full alphabet ({} statements: assignment of 7 values to 12 scalar names A A! A# A% A$ AB AA A1 F FA B B2 and 21 array elements incl. subscripts -1, 1.5, 10, 11, 32767, the last element of a row and the first of the next, and wrong dimension counts; 10 DIMs; 4 ERASEs; 24 DEFtype statements over A, A-B, F, A-Z, B, A-F; all 42 ordered SWAPs of 7 operands; CLEAR) and depth <={} over the core alphabet ({} statements), deduplicated by the full state digest; after the last step every scalar and every known array element, corner and just-outside subscript is read back; every mixed-type SWAP of 7 operands inside a program: TYPE MISMATCH, operands unchanged, also after CONT",
+                "all histories of depth <={} over the full alphabet ({} statements: assignment of 7 values to 12 scalar names A A! A# A% A$ AB AA A1 F FA B B2 and 24 array elements incl. subscripts -1, 1.5, 10, 11, 32767, the last element of a row and the first of the next, and wrong dimension counts; 10 DIMs; 4 ERASEs; 24 DEFtype statements over A, A-B, F, A-Z, B, A-F; all 42 ordered SWAPs of 7 operands; CLEAR) and depth <={} over the core alphabet ({} statements), deduplicated by the full state digest; after the last step every scalar and every known array element, corner and just-outside subscript is read back; every mixed-type SWAP of 7 operands inside a program: TYPE MISMATCH, operands unchanged, also after CONT",
                 tier.pick(2, 3),
                 actions(true).len(),
                 tier.pick(3, 4),
